@@ -187,32 +187,71 @@ Fixpoint strip_zeros (fuel : nat) (m e : Z) : flt :=
   end.
 Definition flt_norm (m e : Z) : flt := strip_zeros (S (Z.to_nat (Z.log2 (Z.abs m)))) m e.
 
-(* mantissa digits with at most one '.'; returns (mantissa, number of digits after the point, saw a digit) *)
-Fixpoint parse_mant (s : bytes) (acc : Z) (frac : Z) (dot digit : bool) : option (Z * Z * bool) :=
+(* mantissa digits with at most one '.'; returns (mantissa, number of digits after the point, saw
+   a digit).  As in Go's floating-point literal syntax an underscore may separate two digits
+   (strconv's underscoreOK): "1_000" is 1000, "1_", "_1", "1__0", "1_.5" are errors. *)
+Definition is_digit_byte (b : byte) : bool := match digit_val b with Some _ => true | None => false end.
+Fixpoint parse_mant_go (s : bytes) (acc : Z) (frac : Z) (dot digit prevd : bool) : option (Z * Z * bool) :=
   match s with
   | [] => Some (acc, frac, digit)
   | b :: r =>
       match digit_val b with
-      | Some d => parse_mant r (acc * 10 + d) (if dot then frac + 1 else frac) dot true
-      | None => if (Byte.eqb b x2e && negb dot)%bool then parse_mant r acc frac true digit else None
+      | Some d => parse_mant_go r (acc * 10 + d) (if dot then frac + 1 else frac) dot true true
+      | None =>
+          if (Byte.eqb b x2e && negb dot)%bool then parse_mant_go r acc frac true digit false
+          else if Byte.eqb b x5f then
+            match r with
+            | c :: _ => if (prevd && is_digit_byte c)%bool then parse_mant_go r acc frac dot digit false else None
+            | [] => None
+            end
+          else None
       end
   end.
+Definition parse_mant (s : bytes) (acc : Z) (frac : Z) (dot digit : bool) : option (Z * Z * bool) :=
+  parse_mant_go s acc frac dot digit false.
 
-(* strconv.ParseFloat(s, 64) on plain decimal literals [+-]digits[.digits] with at most 15
-   significant digits (exact round trip); None = error.  Exponent / hex / inf / nan forms and
-   longer mantissas are outside the modelled class (DESIGN section 9) and also give None. *)
-Definition parse_float (s : bytes) : option flt :=
+(* strconv.ParseFloat(s, 64) on decimal literals [+-]digits[.digits][(e|E)[+-]digits] with at most
+   15 significant digits (exact round trip) and |exponent| <= 30; None = error.  Hex / inf / nan
+   forms, underscores and longer mantissas or exponents are outside the modelled class (DESIGN
+   section 9) and also give None (the first three are exercised by the Go-side cast oracle). *)
+(* split at the first 'e' / 'E' *)
+Fixpoint split_exp (s : bytes) : bytes * option bytes :=
+  match s with
+  | [] => ([], None)
+  | b :: r => if (Byte.eqb b x65 || Byte.eqb b x45)%bool then ([], Some r)
+              else let '(m, e) := split_exp r in (b :: m, e)
+  end.
+
+(* the exponent part: [+-]digits, at least one digit; kept small (the modelled class) *)
+Definition parse_exp (s : bytes) : option Z :=
   let '(neg, body) :=
     match s with
     | x2b :: r => (false, r)
     | x2d :: r => (true, r)
     | _ => (false, s)
     end in
-  match parse_mant body 0 0 false false with
-  | Some (m, frac, true) =>
-      let 'Flt m' e' := flt_norm m (- frac) in
-      if Z.ltb (Z.abs m') 1000000000000000 then Some (Flt (if neg then - m' else m') e') else None
-  | _ => None
+  match parse_uint body with
+  | Some n => if Z.leb n 30 then Some (if neg then - n else n) else None
+  | None => None
+  end.
+
+Definition parse_float (s : bytes) : option flt :=
+  let '(neg, body0) :=
+    match s with
+    | x2b :: r => (false, r)
+    | x2d :: r => (true, r)
+    | _ => (false, s)
+    end in
+  let '(body, ex) := split_exp body0 in
+  match (match ex with Some e => parse_exp e | None => Some 0 end) with
+  | None => None
+  | Some ez =>
+      match parse_mant body 0 0 false false with
+      | Some (m, frac, true) =>
+          let 'Flt m' e' := flt_norm m (ez - frac) in
+          if Z.ltb (Z.abs m') 1000000000000000 then Some (Flt (if neg then - m' else m') e') else None
+      | _ => None
+      end
   end.
 
 (* float64(int64) *)
